@@ -503,9 +503,22 @@ def main_wrapper(fn, pid, tier, seed):
         run.cleanup()
         sys.exit(2)
     signal.signal(signal.SIGTERM, on_term)
+    def verdict_despite(problem):
+        # violations that were already established on behaviour recorded from the real code stand, whatever part of the
+        # check could not be completed afterwards (typically a vacuity guard that trips because the run ended early)
+        log('[infra] %s: %s (after %d violation(s) had been recorded)' % (pid, problem, len(run.violations)))
+        try:
+            return run.finish('exploration', 'check not completed after violations had been recorded: %s' % problem,
+                              dict(evaluations=0, distinct_nontrivial=0), [])
+        except Exception:
+            for what, rp in run.violations:
+                print('VIOLATION property=%s replay=%s   (%s)' % (pid, rp, what), flush=True)
+            return 1
     try:
         return fn(run)
     except Infra as e:
+        if run.violations:
+            return verdict_despite(str(e))
         log('[infra] %s: %s' % (pid, e))
         log('exit 2: infrastructure problem, NOT a verdict about the property')
         if not os.environ.get('VERIF_KEEP'):
@@ -514,6 +527,8 @@ def main_wrapper(fn, pid, tier, seed):
     except Exception:
         import traceback
         traceback.print_exc()
+        if run.violations:
+            return verdict_despite('exception in the check script')
         log('exit 2: infrastructure problem, NOT a verdict about the property')
         run.cleanup()
         return 2
